@@ -15,6 +15,31 @@ From Coq Require Import List NArith ZArith Bool.
 From OV.C24 Require Import Model.
 Import ListNotations.
 
+(* ------------------------------------------------------------------ the shape of printed floats *)
+(* `std::scientific` with a positive precision prints  [-]d.ddd…e[+-]dd…  for a finite value.  The
+   round-trip theorems assume exactly this of the abstract printers (hypotheses print32_shape /
+   print64_shape in Properties_C24.v); the check's model driver asserts it on every float it prints. *)
+Fixpoint take_digits (s : bytes) : bytes * bytes :=
+  match s with
+  | c :: t => if is_digit c then let '(a, b) := take_digits t in (c :: a, b) else ([], s)
+  | [] => ([], [])
+  end.
+
+Definition sci_shape (t : bytes) : bool :=
+  let t1 := match t with c :: t' => if (c =? 45)%N then t' else t | [] => t end in
+  match t1 with
+  | d :: dot :: rest =>
+      is_digit d && (dot =? 46)%N &&
+      (let '(_, rest2) := take_digits rest in
+       match rest2 with
+       | e :: sg :: ex =>
+           (e =? 101)%N && ((sg =? 43) || (sg =? 45))%N
+           && match ex with [] => false | _ => forallb is_digit ex end
+       | _ => false
+       end)
+  | _ => false
+  end.
+
 Section WithFloats.
   Variables F32 F64 : Type.
   Variable eq32 : F32 -> F32 -> bool.
